@@ -180,6 +180,12 @@ func runC02(c *Ctx) {
 	c.R.Floor(r5, 11)
 
 	// R6: who may answer a call
+	const r10 = "C02.R10 what decides the timeout handling and the end of a callee's session is what the sessions announced and did"
+	ruleFeatureTable(c, r10)
+	ruleEndSessionGoodbye(c, r10)
+	ruleProgressiveStickiness(c, r10)
+	c.R.Floor(r10, 12)
+
 	const r6 = "C02.R6 RESULT and call ERROR originate only in dealer actions"
 	n := 0
 	for _, fn := range c.P.FuncsIn("router") {
@@ -206,20 +212,7 @@ func runC02(c *Ctx) {
 			}
 		}
 	}
-	// a result that cannot be passed on (payload-passthru refused) ends the call through syncFailCall: forget, then
-	// one ERROR of type CALL under the caller's own request id
-	fc := dlr + "syncFailCall"
-	c.OnlyCalledFrom(r6, "syncFailCall", `^router\.\(\*dealer\)\.syncFailCall$`, `^router\.\(\*dealer\)\.syncYield$`, 2)
-	c.Fields(r6, fc, "ERROR for the failed call", "wamp.Error", nil, map[string]string{"Type": `^48$`, "Request": `^%invk\.callID\.request$`}, 1)
-	fcSend := dTrySendTo + `%caller, new\(wamp\.Error\)\)$`
-	for _, del := range []string{`^call:builtin:delete\(%d\.invocations, %invkReqID\)$`, `^call:builtin:delete\(%d\.invocationByCall, %invk\.callID\)$`, `^call:builtin:delete\(%d\.calls, %invk\.callID\)$`} {
-		c.Reach(r6, fc, "failed call forgotten before the caller is answered: "+del, ReachSpec{Stop: del, Target: fcSend, Want: false})
-	}
-	c.Reach(r6, fc, "failed call's timer stopped", ReachSpec{Stop: `^call:dyn:%invk\.timerCancel\(\)$`, Cut: []ir.Clause{clause("no timer", T(`^\(%invk\.timerCancel == nil\)$`))}, Target: fcSend, Want: false})
-	c.Has(r6, sy, "the call failed is the one of this invocation, answered to its stored caller",
-		`^call:router\.\(\*dealer\)\.syncFailCall\(%d, %d\.invocations\[`+dInvkKey+`\],ok#0, `+dInvkKey+`, %d\.calls\[%d\.invocations\[`+dInvkKey+`\],ok#0\.callID\],ok#0, `, 2)
-	// no other message reaches the caller from syncYield: every direct send to the stored caller is the RESULT
-	c.HasNot(r6, sy, "no ERROR is sent to the caller directly from syncYield", dTrySendTo+`%d\.calls\[.*\],ok#0, new\(wamp\.Error\)\)$`)
+	ruleFailCall(c, r6)
 	c.R.Floor(r6, 15)
 
 	// R7: the end of a callee's session always reaches the dealer (so that R4 applies)
@@ -260,6 +253,8 @@ func ruleCalleeGone(c *Ctx, r4 string) {
 // the timer goroutine outlives the call and dealer.close waits for it).
 func ruleTimersStoppedOnRemoval(c *Ctx, r5 string) {
 	c.Has(r5, dlr+"syncRemoveSession", "session removal stops timers (both loops)", `^call:dyn:.*\.timerCancel\(\)$`, 2)
+	c.Has(r5, dlr+"syncRemoveSession", "the timer stopped for a leaving caller's call is the one of that call's invocation", `^call:dyn:%d\.invocations\[%d\.invocationByCall\[range\(%d\.calls\)#k\],ok#0\],ok#0\.timerCancel\(\)$`, 1)
+	c.Has(r5, dlr+"syncRemoveSession", "the timer stopped for a leaving callee's invocation is that invocation's", `^call:dyn:range\(%d\.invocations\)#v\.timerCancel\(\)$`, 1)
 }
 
 // ruleTimerStoppedOnFinal: whatever ends a call (final RESULT, ERROR from the callee, CANCEL) stops its timeout timer
@@ -302,4 +297,25 @@ func ruleOneTimerPerCall(c *Ctx, rule string) {
 	if fn := c.P.Func(sc); fn != nil {
 		c.R.Check(len(matches(fn, `\.&timerCancel=`)) == 1, rule, sc, "the timer handle is written in one place only", c.P.FuncPos(fn), "several stores to invocation.timerCancel in syncCall")
 	}
+}
+
+// ruleFailCall: a result that cannot be passed on ends the call through syncFailCall, which forgets the call in all
+// three tables under the right keys (a stale call->invocation entry makes a later CALL with that id dereference a
+// missing invocation) and answers the stored caller once.
+func ruleFailCall(c *Ctx, r6 string) {
+	sy := dlr + "syncYield"
+	// a result that cannot be passed on (payload-passthru refused) ends the call through syncFailCall: forget, then
+	// one ERROR of type CALL under the caller's own request id
+	fc := dlr + "syncFailCall"
+	c.OnlyCalledFrom(r6, "syncFailCall", `^router\.\(\*dealer\)\.syncFailCall$`, `^router\.\(\*dealer\)\.syncYield$`, 2)
+	c.Fields(r6, fc, "ERROR for the failed call", "wamp.Error", nil, map[string]string{"Type": `^48$`, "Request": `^%invk\.callID\.request$`}, 1)
+	fcSend := dTrySendTo + `%caller, new\(wamp\.Error\)\)$`
+	for _, del := range []string{`^call:builtin:delete\(%d\.invocations, %invkReqID\)$`, `^call:builtin:delete\(%d\.invocationByCall, %invk\.callID\)$`, `^call:builtin:delete\(%d\.calls, %invk\.callID\)$`} {
+		c.Reach(r6, fc, "failed call forgotten before the caller is answered: "+del, ReachSpec{Stop: del, Target: fcSend, Want: false})
+	}
+	c.Reach(r6, fc, "failed call's timer stopped", ReachSpec{Stop: `^call:dyn:%invk\.timerCancel\(\)$`, Cut: []ir.Clause{clause("no timer", T(`^\(%invk\.timerCancel == nil\)$`))}, Target: fcSend, Want: false})
+	c.Has(r6, sy, "the call failed is the one of this invocation, answered to its stored caller",
+		`^call:router\.\(\*dealer\)\.syncFailCall\(%d, %d\.invocations\[`+dInvkKey+`\],ok#0, `+dInvkKey+`, %d\.calls\[%d\.invocations\[`+dInvkKey+`\],ok#0\.callID\],ok#0, `, 2)
+	// no other message reaches the caller from syncYield: every direct send to the stored caller is the RESULT
+	c.HasNot(r6, sy, "no ERROR is sent to the caller directly from syncYield", dTrySendTo+`%d\.calls\[.*\],ok#0, new\(wamp\.Error\)\)$`)
 }
